@@ -764,10 +764,18 @@ def cpu_number_marker(ops, verdict):
         return ""
     key = "cpu.number".encode().hex()
     last_open = max([k for k, o in enumerate(ops) if o.startswith("O:")] or [-1])
-    # the key may be written with a leading dot (path relative to the root)
-    vals = [o.split(":")[4] for o in ops[:last_open + 1]
-            if o.startswith("S:") and len(o.split(":")) >= 5 and o.split(":")[2] in (key, "2e" + key)
-            and o.split(":")[3] == "n"]
+    # the key may be written with a leading dot (path relative to the root); the set may also go through
+    # a reference to cpu.number (R:<ctx>:<slot>:<key> ... RS:<ctx>:<slot>:n:<value>)
+    keys = (key, "2e" + key)
+    vals, refs = [], {}
+    for o in ops[:last_open + 1]:
+        f = o.split(":")
+        if f[0] == "R" and len(f) >= 4:
+            refs[(f[1], f[2])] = f[3]
+        elif f[0] == "S" and len(f) >= 5 and f[2] in keys and f[3] == "n":
+            vals.append(f[4])
+        elif f[0] == "RS" and len(f) >= 5 and f[3] == "n" and refs.get((f[1], f[2])) in keys:
+            vals.append(f[4])
     if not vals:
         return ""
     try:
